@@ -45,6 +45,7 @@ def ctor_fields(fn):
 def run(rep, tier):
     rep.rule("C12.R1", "K8: every field initialised by the constructor is re-initialised on recycling (rebind/reset), minus fields fixed for the object's life")
     rep.rule("C12.R2", "K8: swapcontext asm: callee-saved registers pushed, popped in reverse, rsp switched in between; offsets agree with funp_idx/cb_idx/context_size; FP control state")
+    rep.rule("C12.R4", "K6 (who-may-hold): the thread-local 'current task' slot is looked up on the executing OS thread at every use: no reference or pointer to coroutine_self::local_self()'s result is kept in a variable or member (a task may resume on another worker)")
     rep.rule("C12.R3", "K8: alloc_stack/free_stack use the same size/guard adjustment; create_thread_object and recycle_thread select the heap by the same comparisons")
 
     # ---- R1
@@ -209,3 +210,47 @@ def run(rep, tier):
         rep.ok("C12.R3", rc[0], "create_thread_object and recycle_thread map stack sizes to the same heaps: %s" % sorted(t1))
     else:
         rep.bad("C12.R3", rc[0], rc[0].loc, "heap-selection", "a thread object can be recycled into a heap for another stack size than the one it is taken from (create: %s, recycle: %s): a task would run on a stack of the wrong size" % (t1, t2))
+
+    # ---- R4: nobody keeps a handle on the thread-local slot across a context switch
+    from .common import who_references
+    SLOT = "pika::threads::coroutines::detail::coroutine_self::local_self"
+    WF, cpps, hdrs = who_references(rep, r"coroutine_self::local_self$", "local_self")
+    seen_fn = set()
+    nuse = 0
+
+    def has_slot(x):
+        return bool(subexprs(x, lambda y: isinstance(y, dict) and y.get("k") == "call" and callee_of(y) == SLOT)) if x is not None else False
+
+    def is_handle(t):
+        t = str(t or "").replace("const", "").strip()
+        return t.endswith("&") or t.endswith("* *") or t.endswith("**")
+    for W in WF:
+        for f in W.fns:
+            if f.qname == SLOT or (f.qname, f.loc) in seen_fn:
+                continue
+            seen_fn.add((f.qname, f.loc))
+            for b, i, ev in f.all_events():
+                k = ev.get("k")
+                bad = None
+                if k == "init" and has_slot(ev.get("init")) and is_handle(ev.get("ftype")):
+                    bad = "member '%s' (%s) is bound to the slot" % (ev.get("field"), ev.get("ftype"))
+                elif k == "decl" and has_slot(ev.get("init")) and is_handle(ev.get("type")):
+                    bad = "local '%s' (%s) is bound to the slot" % (ev.get("var"), ev.get("type"))
+                elif k == "return" and has_slot(ev.get("e")) and str(f.raw.get("ret", "")).rstrip().endswith("&"):
+                    bad = "the slot reference is returned (%s)" % f.raw.get("ret")
+                elif k in ("init", "decl", "return", "write", "call") and (has_slot(ev.get("init")) or has_slot(ev.get("e")) or has_slot(ev.get("rhs"))
+                                                                         or has_slot(ev.get("lhs")) or (k == "call" and callee_of(ev) != SLOT and has_slot(ev.get("args")))):
+                    # address-of the slot anywhere
+                    for x in (ev.get("init"), ev.get("e"), ev.get("rhs"), ev.get("args")):
+                        if x is not None and subexprs(x, lambda y: isinstance(y, dict) and y.get("k") == "un" and y.get("op") == "&" and has_slot(y.get("e"))):
+                            bad = "the address of the slot is taken"
+                if k in ("init", "decl", "return", "write") and (has_slot(ev.get("init")) or has_slot(ev.get("e")) or has_slot(ev.get("rhs")) or has_slot(ev.get("lhs"))):
+                    nuse += 1
+                    if bad:
+                        rep.bad("C12.R4", f, loc_of(ev), "tls-handle:%s" % f.qname.rsplit("::", 1)[-1], "%s: %s. The slot belongs to the OS thread that executed the "
+                                "lookup; after a yield the task may run on another worker, so a stored handle writes the task's identity into the old worker's "
+                                "slot and leaves the new worker's slot stale" % (f.qname, bad))
+                    else:
+                        rep.ok("C12.R4", f, "%s uses the slot transiently (%s at %s)" % (f.qname.rsplit("::", 1)[-1], k, loc_of(ev)))
+    if nuse < 2:
+        raise AnalysisBroken("C12.R4: fewer than two uses of coroutine_self::local_self found (files spelling it: %s)" % (cpps + hdrs))
